@@ -495,6 +495,7 @@ pub struct SyscConfig {
     pub out: String,
     pub replay_dir: String,
     pub sequences: usize,
+    pub no_floor: bool,
 }
 
 #[derive(Serialize, Deserialize)]
@@ -588,7 +589,7 @@ pub fn run_check(cfg: &SyscConfig) -> (usize, Option<String>) {
         println!("  signature={} count={}: {}", sig, count, msg);
         records.push(json!({"signature": sig, "count": count, "message": msg, "replay": path}));
     }
-    let inconclusive = if shapes.len() < 20 { Some(format!("coverage floor not met: {} distinct non-trivial sequences", shapes.len())) } else { None };
+    let inconclusive = if !cfg.no_floor && shapes.len() < 20 { Some(format!("coverage floor not met: {} distinct non-trivial sequences", shapes.len())) } else { None };
     let ev = json!({
         "property_id": "C17",
         "tier": cfg.tier,
